@@ -7,6 +7,7 @@
 package c01
 
 import (
+	"encoding/json"
 	"fmt"
 	"os"
 	"path/filepath"
@@ -34,7 +35,6 @@ var testifyAPI = map[string]bool{"EXPECT": true, "Mock": true, "On": true, "Call
 var knownSwitches = map[string][]string{
 	"testify/compile/t_redeclared_in_this_block": {"tparamname:t", "tparamname:mock"},
 	"matryer/compile/mock.LAlias_is_not_a_type":  {"srcpkg:mock", "pkg:mockp"},
-	"matryer/compile/T_redeclared":               {"ident:case-collision"},
 }
 
 func avoidSet() map[string]bool {
@@ -49,7 +49,31 @@ func avoidSet() map[string]bool {
 	return av
 }
 
+// corners is a small corpus of module shapes that random generation reaches too rarely; one case
+// in twelve takes its module from here (the rendering is still drawn).
+var corners = []string{
+	// a package whose name is a suffix of its directory name and equals a standard-library package
+	// that exports the same identifiers (import-name guessing by goimports)
+	`{"modpath":"example.com/m","gomod":"plain","pkgs":[{"dir":"xhttp","name":"http","files":1,"ifaces":[{"name":"Handler","methods":[{"name":"Do","sig":{"params":[{"name":"p0","t":{"k":"basic","n":"int"}}]}}]},{"name":"Client","methods":[{"name":"Get","sig":{"results":[{"name":"","t":{"k":"basic","n":"error"}}]}}]}]}]}`,
+	`{"modpath":"example.com/m","gomod":"plain","pkgs":[{"dir":"httpd","name":"http","files":1,"ifaces":[{"name":"Handler","methods":[{"name":"Do","sig":{"params":[{"name":"p0","t":{"k":"basic","n":"string"}}]}}]}]}]}`,
+	// the source package in the module root, its own types in the signatures
+	`{"modpath":"example.com/ledger","gomod":"plain","pkgs":[{"dir":"","name":"ledger","files":1,"ifaces":[{"name":"Store","methods":[{"name":"Put","sig":{"params":[{"name":"e","t":{"k":"named","n":"Local"}}],"results":[{"name":"","t":{"k":"ptr","e":{"k":"named","n":"Local"}}}]}}]}]}]}`,
+	// three same-named packages in one signature
+	`{"modpath":"example.com/m","gomod":"plain","pkgs":[{"dir":"svc","name":"svc","files":1,"ifaces":[{"name":"Service","methods":[{"name":"Do","sig":{"params":[{"name":"a","t":{"k":"named","n":"T","p":"alpha"}},{"name":"b","t":{"k":"named","n":"T","p":"alphb"}},{"name":"c","t":{"k":"named","n":"T","p":"alphc"}}]}}]}]}]}`,
+	// a parameter named like a type that only a LATER parameter of the same method brings in
+	`{"modpath":"example.com/m","gomod":"plain","pkgs":[{"dir":"svc","name":"svc","files":1,"ifaces":[{"name":"Service","methods":[{"name":"Convert","sig":{"params":[{"name":"Local","t":{"k":"basic","n":"string"}},{"name":"target","t":{"k":"named","n":"Local"}}],"results":[{"name":"","t":{"k":"basic","n":"error"}}]}},{"name":"Tag","sig":{"params":[{"name":"LStr","t":{"k":"basic","n":"int"}},{"name":"all","t":{"k":"slice","e":{"k":"named","n":"LStr"}}}],"results":[{"name":"","t":{"k":"named","n":"LStr"}}]}}]}]}]}`,
+}
+
 func gen(t *rapid.T) Case {
+	if rapid.IntRange(0, 11).Draw(t, "corner") == 0 {
+		var m progen.Module
+		if err := json.Unmarshal([]byte(rapid.SampledFrom(corners).Draw(t, "which-corner")), &m); err != nil {
+			panic(err)
+		}
+		r := progen.GenRendering(t)
+		r.GenIfaceData(t, &m)
+		return Case{Mod: m, R: r}
+	}
 	r := progen.GenRendering(t)
 	o := progen.Opts{Avoid: avoidSet()}
 	if r.InPackage() && rapid.IntRange(0, 2).Draw(t, "unexported") == 0 {
@@ -60,6 +84,9 @@ func gen(t *rapid.T) Case {
 	}
 	o.OnAvoid = vh.Excluded
 	mod := progen.Gen(t, o)
+	if rapid.IntRange(0, 3).Draw(t, "template-locals") == 0 {
+		progen.HostileLocals(t, &mod, r.Template)
+	}
 	r.GenIfaceData(t, &mod)
 	return Case{Mod: mod, R: r}
 }
